@@ -124,6 +124,8 @@ def file_bytes(rng, kind):
         elif r < needle_p + match_p:
             ws.insert(rng.randrange(len(ws) + 1), "foo")
         return " ".join(ws)
+    if kind == "empty":
+        return b""
     if kind == "nomatch":
         lines = [line(0) for _ in range(rng.randint(0, 30))]
     elif kind == "tiny":
@@ -149,7 +151,13 @@ def file_bytes(rng, kind):
 def materialise(scn, base):
     """Render the scenario's tree under base/tree (deterministic in scn['seed'])."""
     rng = random.Random(scn["seed"])
-    files = gen_tree(rng, scn["dense"], scn["tier"])
+    if scn.get("rare"):
+        # very many files without a match and a single one with: the shared "something matched" state is written by
+        # many workers that have nothing to report while one has
+        files = [("e%02d/%04d.txt" % (i % 40, i), "empty") for i in range(1500)]
+        files.insert(rng.randrange(len(files)), ("e07/hit.txt", "tiny"))
+    else:
+        files = gen_tree(rng, scn["dense"], scn["tier"])
     root = os.path.join(base, "tree")
     os.makedirs(root)
     for rel, kind in files:
@@ -182,6 +190,18 @@ def materialise(scn, base):
     with open(pre, "wb") as f:
         f.write(PRE_SCRIPT)
     os.chmod(pre, 0o755)
+    if scn.get("roots"):
+        # extra top-level directories: the group names every top-level directory on the command line
+        extra = []
+        for i in range(5):
+            for k in range(2):
+                rel = "r%d/h%d.txt" % (i, k)
+                os.makedirs(os.path.join(root, "r%d" % i), exist_ok=True)
+                with open(os.path.join(root, rel), "wb") as f:
+                    f.write(file_bytes(rng, "tiny"))
+                extra.append((rel, "tiny"))
+        files = files + extra
+    scn["_kinds"] = {rel: kind for rel, kind in files}
     return root, pre, [rel for rel, _ in files]
 
 
@@ -213,18 +233,27 @@ def make_scenarios(tier, seed):
         nrun, nsort = 30, 4
     for i, (mode, pat) in enumerate(plan):
         threads = [2, 16] + [rng.randint(2, 16) for _ in range(nrun - 2)]
+        if i % 5 == 4:
+            threads[2:5] = [2, 3, 4]       # fewer threads than roots
         if tier != "quick":
             threads = list(range(2, 17)) + [rng.randint(2, 16) for _ in range(nrun - 15)]
         rng.shuffle(threads)
         scns.append({
             "gid": i, "seed": rng.randrange(1 << 30), "tier": tier, "mode": mode, "pattern": pat,
             "dense": (i % 3 == 0 and mode != "json") or (tier == "quick" and pat == "many" and mode in ("heading", "context")),
-            "pre": i % 2 == 0, "ignores": i % 4 == 1, "links": i % 3 == 2,
+            "pre": i % 2 == 0, "ignores": i % 4 == 1, "links": i % 3 == 2 and i % 5 != 4,
             "threads": threads,
             # CPU sets: None = unrestricted, else number of CPUs the run is confined to
             "cpus": [rng.choice([None, None, 1, 2, 3]) for _ in threads],
             "sort_threads": [rng.randint(2, 16) for _ in range(nsort)],
+            "roots": i % 5 == 4,
         })
+    # groups with a single matching file among very many empty ones, many repetitions with many threads
+    nrare = 140 if tier == "quick" else 600
+    for k, mode in enumerate(("quiet", "noheading")):
+        scns.append({"gid": len(plan) + k, "seed": rng.randrange(1 << 30), "tier": tier, "mode": mode, "pattern": "many", "dense": False,
+                     "pre": False, "ignores": False, "links": False, "rare": True, "roots": False,
+                     "threads": [16, 8] * (nrare // 2), "cpus": [None] * nrare, "sort_threads": [4]})
     return scns
 
 
@@ -255,9 +284,17 @@ def execute_group(scn, rg, only=None, repeat=1):
     try:
         root, pre, files = materialise(scn, base)
         args = base_args(scn, pre)
+        if scn.get("roots"):
+            # every top-level entry named on the command line: more roots than threads for the small thread counts
+            # (directories only: a file named explicitly is searched whatever -g says, which the per-file references rely on)
+            args = args + ["--"] + sorted({rel.split("/")[0] for rel in files if "/" in rel and not rel.startswith(".")})
+            files = [rel for rel in files if "/" in rel]
         res = {"files": files, "args": args, "blocks": [], "runs": [], "sortrefs": [], "sortruns": []}
         for rel in files:
-            rc, out, err = run_rg(rg, ["-j1"] + args + ["-g", "/" + rel], root)
+            if scn.get("rare") and scn["_kinds"].get(rel) == "empty":
+                res["blocks"].append(b"")        # an empty file has an empty block in the modes of the rare groups
+                continue
+            rc, out, err = run_rg(rg, ["-j1", "-g", "/" + rel] + args, root)
             if rc not in (0, 1):
                 raise vlib.ToolError("single-file reference run failed rc=%d: %s" % (rc, err[-300:]))
             res["blocks"].append(out)
